@@ -2,6 +2,7 @@ package web
 
 import (
 	"net/http"
+	"net/url"
 	"strings"
 
 	"github.com/gorilla/mux"
@@ -45,7 +46,14 @@ func headerMatch(req *http.Request, name string, value string) bool {
 
 // NewContext returns a Context for the given HTTP Request
 func NewContext(req *http.Request) (*Context, error) {
-	vars := mux.Vars(req)
+	// The router matches the encoded path (see Router), so path variables arrive escaped.
+	vars := make(map[string]string)
+	for name, value := range mux.Vars(req) {
+		if unescaped, err := url.PathUnescape(value); err == nil {
+			value = unescaped
+		}
+		vars[name] = value
+	}
 	ctx := &Context{
 		Vars:       vars,
 		MsgHub:     msgHub,
